@@ -57,6 +57,7 @@ inline std::string canon_state(zoo::RootT& r) {
         if (E.entries[cm.src] == cm.cnt && E.parity[cm.src] == 1) s += std::to_string(kv.first) + "=" + std::to_string(cm.ans) + ",";
     }
     s += ";S:" + std::to_string((int)g_started);
+    s += ";QQ:" + zoo::vf_queues(r);     // the library's own queues: content and order as they really are
     return s;
 }
 
